@@ -162,6 +162,7 @@ def nopOf (j : Json) : Except String Spydr.Names.Op := do
     let nm := match j.getObjVal? "name" with | .ok (.str v) => some v | _ => none
     let idt := match j.getObjVal? "ident" with | .ok (.str v) => some v | _ => none
     pure (.createIn (← elOf (← j.getObjVal? "p")) (← elOf (← j.getObjVal? "c")) nm idt)
+  | "clone" => pure (.clone (← elOf (← j.getObjVal? "e")) (← getNat j "off"))
   | _ => throw s!"unknown names op {t}"
 
 def nresStr : Spydr.Names.Res → String
